@@ -877,6 +877,7 @@ impl Xot {
         } else {
             None
         };
+        let next_node = self.next_sibling(replaced_node);
         // remove the replaced node, use low-level remove_tree to avoid
         // text node reconciliation and document element detection
         replaced_node.get().remove_subtree(self.arena_mut());
@@ -885,6 +886,17 @@ impl Xot {
             // if the replacing node is the previous sibling it is in place already
             if previous_node != replacing_node {
                 self.insert_after(previous_node, replacing_node)?;
+            }
+            // a text node that came to stand between two text nodes was merged
+            // into the first of them; the one that followed the replaced node
+            // is adjacent to it now and has to be merged as well
+            if let Some(next_node) = next_node {
+                if !self.is_removed(next_node) {
+                    self.remove_consolidate_text_nodes(
+                        self.previous_sibling(next_node),
+                        Some(next_node),
+                    );
+                }
             }
         } else {
             self.prepend(parent, replacing_node)?;
